@@ -190,7 +190,13 @@ func (w *c12world) checkWatch() {
 					c.S.Probe("watch_skipped_store_conflict")
 					continue
 				}
-				c.Fail("watch-applied", "watch/"+w.modeName()+"/put-rejected-stale-holder"+t.ctx,
+				ctxs := t.ctx
+				if ctxs == "" && w.lease && t.holderRec == "" && len(w.slots) > 1 {
+					// in-order delivery, yet the local holder's record is gone from the store: in lease
+					// mode another node's store cleanup removed it (records carry per-process epoch numbers)
+					ctxs = "/holder-record-cleaned-by-peer"
+				}
+				c.Fail("watch-applied", "watch/"+w.modeName()+"/put-rejected-stale-holder"+ctxs,
 					"node n%d received put(%s -> %s) from n%d (seq %d) but answers %q: on arrival the prefix was held locally by %s, whose store record was %q",
 					sl.idx, sub, want, t.from, t.seq, ans, t.holder, t.holderRec)
 				continue
